@@ -31,7 +31,8 @@ ANCHORS = [
     "acnportal.acnsim.interface:Interface._infrastructure_info",
     "acnportal.algorithms.utils:infrastructure_constraints_feasible",
 ]
-REQUIRED = ["phasor_judged", "linear_judged", "near_boundary_judged", "constraint_free_sim_runs",
+REQUIRED = ["phasor_judged", "linear_judged", "near_boundary_judged", "constraint_free_sim_runs", "history_rejudged",
+            "history_op:remove_not_last", "history_op:update", "history_op:update_rename", "history_op:add",
             "regime:phasor-accept", "regime:phasor-reject", "regime:linear-accept", "regime:linear-reject",
             "regime:T>1", "regime:mixed-sign"]
 BUDGET_S = {"quick": 200, "thorough": 2400}
@@ -81,6 +82,11 @@ def cases(seed, tier):
             D = [[-x if rng.random() < 0.3 else x for x in r] for r in D]
         out.append({"kind": "feas", "net": nd, "D": D, "k": rng.choice(KS), "mode": rng.choice(["phasor", "linear"]),
                     "omit": rng.random() < 0.3, "oseed": rng.randrange(1 << 30), "use_defaults": rng.random() < 0.25})
+        if i % 6 == 0:
+            nd2 = _net(rng)
+            T2 = rng.choice([1, 2, 3])
+            D2 = [[round(rng.random(), 4) for _ in range(T2)] for _ in nd2["stations"]]
+            out.append({"kind": "hist", "net": nd2, "D": D2, "steps": rng.randint(1, 4), "oseed": rng.randrange(1 << 30)})
     return out
 
 
@@ -120,6 +126,8 @@ def run_case(case, obs):
         return _run_feas(case, obs)
     if kind == "free":
         return _run_free(case, obs)
+    if kind == "hist":
+        return _run_hist(case, obs)
     if kind == "witness_e":
         nd = {"stations": [{"id": "a", "evse": {"t": "EVSE", "max": 100, "min": 0}, "voltage": 208, "phase": 0},
                            {"id": "b", "evse": {"t": "EVSE", "max": 100, "min": 0}, "voltage": 208, "phase": 180}],
@@ -139,13 +147,15 @@ def _run_feas(case, obs):
     _judge(nd, S, obs, ts=ts, omit=case["omit"], oseed=case["oseed"], use_defaults=case["use_defaults"], k=case["k"])
 
 
-def _judge(nd, S, obs, ts=1e-7, omit=False, oseed=0, use_defaults=False, tag=None, k=None):
+def _judge(nd, S, obs, ts=1e-7, omit=False, oseed=0, use_defaults=False, tag=None, k=None, net=None, iface=None):
     from acnportal.algorithms.utils import infrastructure_constraints_feasible as icf
     from acnportal.acnsim.interface import InvalidScheduleError
     ids, A, L, ang, names = oracles.dense_rows(nd)
     at, rt = nd["tol"]
-    net = build.build_network(nd)
-    iface = _iface(net)
+    if net is None:
+        net = build.build_network(nd)
+    if iface is None:
+        iface = _iface(net)
     Sm = np.array(S, dtype=float)
     T = Sm.shape[1]
     g = oracles.guard(L)
@@ -226,6 +236,60 @@ def _judge(nd, S, obs, ts=1e-7, omit=False, oseed=0, use_defaults=False, tag=Non
         obs.nontrivial()
     obs.sample = {"stations": len(ids), "constraints": len(A), "periods": T, "tolerances": [at, rt], "k": k,
                   "phasor_margin": mp, "linear_margin": ml, "verdicts": {m_: list(map(bool, r[1:])) for m_, r in res.items()}}
+
+
+def _run_hist(case, obs):
+    """The same network object is checked, edited (remove / update / add constraint) and checked again:
+    every checker must follow the current constraint set (no stale matrices, limits or cached descriptions)."""
+    from acnportal.acnsim.network import Current
+    rng = random.Random(case["oseed"])
+    nd = {"stations": case["net"]["stations"], "constraints": [dict(c) for c in case["net"]["constraints"]], "tol": case["net"]["tol"]}
+    ids = [s["id"] for s in nd["stations"]]
+    net = build.build_network(nd)
+    iface = _iface(net)  # one interface kept across the edits (what a scheduler holds)
+    D = case["D"]
+    fresh = len(nd["constraints"])
+    for step in range(case["steps"] + 1):
+        if nd["constraints"]:
+            mode = rng.choice(["phasor", "linear"])
+            kk = rng.choice(KS)
+            alpha, ts = _scale(nd, D, kk, mode)
+            S = [[x * alpha for x in r] for r in D]
+            _judge(nd, S, obs, ts=ts, oseed=rng.randrange(1 << 30), k=kk, net=net, iface=iface if rng.random() < 0.7 else None,
+                   tag=f"history-step-{step}")
+            obs.ev("history_rejudged" if step else "history_first_judged")
+        if step == case["steps"]:
+            break
+        cons = nd["constraints"]
+        op = rng.choice(["remove", "remove", "update", "update_rename", "add"]) if len(cons) > 1 else rng.choice(["add", "update"])
+        if op == "remove":
+            j = rng.randrange(len(cons) - 1)  # never the last one added: later rows must shift
+            net.remove_constraint(cons[j]["name"])
+            del cons[j]
+            obs.ev("history_op:remove_not_last")
+        elif op in ("update", "update_rename"):
+            j = rng.randrange(len(cons))
+            sub = rng.sample(ids, rng.randint(1, len(ids)))
+            co = {s_: rng.choice(COEFS) for s_ in sub}
+            lim = round(rng.uniform(1, 500), 3)
+            new = cons[j]["name"] if op == "update" else f"r{fresh}"
+            fresh += 1
+            net.update_constraint(cons[j]["name"], Current(dict(co)), lim, new_name=None if op == "update" else new)
+            del cons[j]
+            cons.append({"name": new, "coeffs": co, "limit": lim})
+            obs.ev("history_op:" + op)
+        else:
+            sub = rng.sample(ids, rng.randint(1, len(ids)))
+            co = {s_: rng.choice(COEFS) for s_ in sub}
+            lim = round(rng.uniform(1, 500), 3)
+            nm = f"n{fresh}"
+            fresh += 1
+            net.add_constraint(Current(dict(co)), lim, name=nm)
+            cons.append({"name": nm, "coeffs": co, "limit": lim})
+            obs.ev("history_op:add")
+        if list(net.constraint_index) != [c["name"] for c in cons]:
+            obs.violate("constraint_index_after_edit", f"{list(net.constraint_index)} vs model {[c['name'] for c in cons]}", network=nd)
+            return
 
 
 def _run_free(case, obs):
